@@ -23,6 +23,7 @@ class QuicPacketSpace:
         self.discarded = False
         self.expected_packet_number = 0
         self.largest_received_packet = -1
+        self.largest_received_non_probing_packet = -1
         self.largest_received_time: Optional[float] = None
 
         # sent packets and loss
